@@ -58,7 +58,86 @@ def _job(seeds):
     return out
 
 
+def _near(rng, thr64):
+    """float32 scores sitting on / one float32 ulp below / above the float32 rounding of float64 thresholds"""
+    out = []
+    for _ in range(rng.choice([1, 3, 6])):
+        t = torch.tensor(float(rng.choice(thr64.tolist())), dtype=torch.float32)
+        k = rng.choice([0, 0, -1, 1])
+        v = t if k == 0 else torch.nextafter(t, torch.tensor(-1.0 if k < 0 else 2.0))
+        out.append(float(v.clamp(0.0, 1.0)))
+    return out
+
+
+def _job_ulp(seeds):
+    """non-dyadic float64 thresholds with float32 scores within one ulp of them: both optimisation modes,
+    direct counting in float64, and binned AUROC vs the exact AUROC of the floored scores (binned_auroc_floor)"""
+    import torcheval.metrics.functional as F
+    out = []
+    for seed in seeds:
+        rng = random.Random(seed)
+        inner = sorted({rng.randint(1, 9) / 10 for _ in range(rng.randint(1, 5))})
+        thr = torch.tensor([0.0] + inner + [1.0], dtype=torch.float64)
+        C = rng.choice([2, 3])
+        n = rng.choice([2, 4, 7])
+        scores = torch.tensor([_near(rng, thr)[:1] * 0 + [rng.choice(_near(rng, thr)) for _ in range(C)] for _ in range(n)], dtype=torch.float32)
+        tgt = torch.tensor([rng.randrange(C) for _ in range(n)])
+        d = None
+        try:
+            rv = F.multiclass_binned_precision_recall_curve(scores, tgt, num_classes=C, threshold=thr, optimization="vectorized")
+            rm = F.multiclass_binned_precision_recall_curve(scores, tgt, num_classes=C, threshold=thr, optimization="memory")
+            d = close(impl_val([rv[0], rv[1]]), impl_val([rm[0], rm[1]]), 0)
+            if d:
+                d = "vectorized vs memory: " + d
+            else:
+                onehot = torch.nn.functional.one_hot(tgt, C).bool()
+                ge = scores.double().unsqueeze(0) >= thr.view(-1, 1, 1)
+                tp = (ge & onehot.unsqueeze(0)).sum(1).double()
+                fp = (ge & ~onehot.unsqueeze(0)).sum(1).double()
+                for c in range(C):
+                    den = tp[:, c] + fp[:, c]
+                    ok = den > 0
+                    if not torch.allclose(rv[0][c][:-1].double()[ok], (tp[:, c] / den)[ok], atol=1e-6):
+                        d = f"class {c}: precision differs from counting samples scored >= each threshold (exact comparison of float32 scores with float64 thresholds)"
+                        break
+        except Exception as ex:
+            d = f"exception {type(ex).__name__}: {ex}"
+        out.append(("multiclass-ulp", seed, len(thr), d))
+        # binned AUROC = exact AUROC of the scores rounded down to the nearest threshold
+        d = None
+        try:
+            m = rng.choice([3, 6, 10])
+            sc = torch.tensor([rng.choice(_near(rng, thr)) for _ in range(m)], dtype=torch.float32)
+            y = torch.tensor([rng.randint(0, 1) for _ in range(m)])
+            b = F.binary_binned_auroc(sc, y, threshold=thr)[0]
+            idx = (sc.double().unsqueeze(1) >= thr.unsqueeze(0)).sum(1) - 1
+            floored = thr[idx]
+            ex = F.binary_auroc(floored, y)
+            if abs(float(b.reshape(-1)[0]) - float(ex)) > 1e-6:
+                d = f"binned AUROC {float(b.reshape(-1)[0])} vs exact AUROC of floored scores {float(ex)} (scores {sc.tolist()}, labels {y.tolist()}, thresholds {thr.tolist()})"
+        except Exception as ex_:
+            d = f"exception {type(ex_).__name__}: {ex_}"
+        out.append(("binned-auroc-ulp", seed, len(thr), d))
+    return out
+
+
 def run(ctx):
+    s2 = ctx.stream("scores within one float32 ulp of non-dyadic float64 thresholds (implementation only)")
+    seeds2 = [ctx.rng.randrange(10 ** 9) for _ in range(ctx.n(150, 2000))]
+    chunks2 = [seeds2[i::6] for i in range(6)]
+    bad2 = {}
+    for ch, (status, val) in zip(chunks2, sandbox.run_jobs(_job_ulp, chunks2, timeout=ctx.n(120, 900), workers=6)):
+        if status != "ok":
+            ctx.violation("failing-input", "C06-ulp", {"check": "c06_ulp", "observed": f"worker {status}: {val}", "broken": "tie:c06-ulp"})
+            continue
+        for kind, seed, T, d in val:
+            s2.case((kind, seed), True, sample={"form": kind, "thresholds": T, "seed": seed})
+            s2.count(kind)
+            if d and kind not in bad2:
+                bad2[kind] = {"check": "c06_ulp", "form": kind, "seed": seed, "observed": d}
+    for kind, b in sorted(bad2.items()):
+        ctx.violation("failing-input", kind, {**b, "broken": f"binned_counts_spec:{kind}"},
+                      finding_id=core.match_finding("C06", kind, str(b["observed"])))
     s = ctx.stream("long threshold lists: both modes vs direct counting (implementation only)")
     seeds = [ctx.rng.randrange(10 ** 9) for _ in range(ctx.n(24, 300))]
     chunks = [seeds[i::6] for i in range(6)]
@@ -79,6 +158,9 @@ def run(ctx):
 
 
 def replay(d):
+    if d.get("check") == "c06_ulp":
+        r = [x for x in _job_ulp([d["seed"]]) if x[0] == d["form"] and x[3]]
+        return r[0][3] if r else None
     if d.get("check") != "c06_long":
         return NotImplemented
     r = [x for x in _job([d["seed"]]) if x[0] == d["form"] and x[3]]
